@@ -276,6 +276,13 @@ def trim_cases(seed, count, repo_import, ai_mod, pysam, hdr):
             pieces.append(("R", rng.randint(30, 200)))
         for _ in range(n_a):
             pieces.append(("A", rng.choice((3, 8, 17, 25, 40))))
+        degenerate = rng.random() < 0.15
+        if degenerate:
+            # a short spliced alignment that is a T run (or an A run) from end to end: EVERY exon looks like an aligned tail
+            kind = rng.choice("TA")
+            pieces = [(kind, rng.choice((8, 12, 17, 20, 30))) for _ in range(rng.randint(2, 4))]
+            if rng.random() < 0.5:
+                pieces.append(("R", rng.randint(3, 8))) if kind == "T" else pieces.insert(0, ("R", rng.randint(3, 8)))
         # partial fake exons: real prefix then A's
         mix_right = n_a and rng.random() < 0.5
         mix_left = n_t and rng.random() < 0.5
@@ -330,6 +337,7 @@ def trim_cases(seed, count, repo_import, ai_mod, pysam, hdr):
                                 pi_.internal_polyt_pos = -1
                             else:
                                 pi_.internal_polya_pos = -1
+                        self_inner.last = {nm_: getattr(pi_, nm_) for nm_ in POS_NAMES}
                         return pi_
                 use_finder = InjFinder()
             else:
@@ -337,6 +345,7 @@ def trim_cases(seed, count, repo_import, ai_mod, pysam, hdr):
             # record the raw tail positions first
             raw = finder.detect_polya(a) if not inject else None
             info.add_polya_info(use_finder, fixer)
+            before = use_finder.last if inject else {nm_: getattr(raw, nm_) for nm_ in POS_NAMES}
             ex1 = info.read_exons
             key = None
             # post-conditions
@@ -362,6 +371,13 @@ def trim_cases(seed, count, repo_import, ai_mod, pysam, hdr):
             if info.exons_changed != (nl + nr > 0):
                 out["viol"].append(("trim-flag-wrong", cigar_str(cigar), a.reference_start, str(ex0), str(ex1)))
             pi_ = info.polya_info
+            # a side on which no exon was removed keeps its recorded positions
+            for side_removed, names in ((nr, ("internal_polya_pos", "external_polya_pos")), (nl, ("internal_polyt_pos", "external_polyt_pos"))):
+                if side_removed == 0:
+                    for nm in names:
+                        if getattr(pi_, nm) != before[nm]:
+                            out["viol"].append(("trim-position-moved-without-removal", cigar_str(cigar), a.reference_start,
+                                                "%s %d -> %d, exons %s kept %s" % (nm, before[nm], getattr(pi_, nm), ex0, ex1), ""))
             # tail positions: when exons were removed on the A side, a position that was recorded must end up
             # at  retained_end + (aligned bases of the removed exons left of the position)
             if nr > 0:
@@ -419,7 +435,7 @@ def trim_cases(seed, count, repo_import, ai_mod, pysam, hdr):
                     exp = ex1[0][0] - off
                     if getattr(pi_, nm) != exp:
                         out["proj_diff"] = out.get("proj_diff", 0) + 1
-            key = "A%d/T%d%s" % (nr, nl, "/inj" if inject else "")
+            key = "A%d/T%d%s%s" % (nr, nl, "/inj" if inject else "", "/all-tail" if degenerate else "")
             out["trim_classes"][key] = out["trim_classes"].get(key, 0) + 1
             if (nl or nr) and len(out["samples"]) < 2:
                 out["samples"].append({"cigar": cigar_str(cigar), "exons": ex0, "after": ex1, "removed_right": nr, "removed_left": nl})
@@ -431,6 +447,7 @@ def trim_cases(seed, count, repo_import, ai_mod, pysam, hdr):
 
 
 LEVEL = "exploration"
+POS_NAMES = ("internal_polya_pos", "external_polya_pos", "internal_polyt_pos", "external_polyt_pos")
 
 
 def run(chk, scratch):
